@@ -99,6 +99,27 @@ def rule_sync(ctx):
                 ctx.ob('C03.sync', f'{cl.module.name}:ChannelList.{name}:zips-arguments', not used,
                        f'ChannelList.{name} iterates its channels alone and hands the whole argument(s) {used} to each channel: a list '
                        f'argument yields a nested cross product instead of being zipped (wrap-and-zip law)', comp, cl.module)
+    # element methods reached through _multichannel_perform receive a list when the argument was a nested list: a method that
+    # computes on a parameter with Python operators must wrap list parameters first (ChannelList arithmetic expands them)
+    for name, f in sorted(cl.methods.items()):
+        body = U.body_nodoc(f.node)
+        if not (len(body) == 1 and isinstance(body[0], ast.Return) and isinstance(body[0].value, ast.Call)
+                and U.is_self_attr(body[0].value.func, '_multichannel_perform')):
+            continue
+        t = repo.resolve_method(ug, name)
+        if t is None:
+            continue
+        params = set(t.params[1:])
+        wrapped = set()
+        for x in walk_local(t.node):
+            if isinstance(x, ast.Assign) and 'ChannelList(' in norm(x.value):
+                for tg in x.targets:
+                    wrapped |= set(U.names_in(tg))
+        raw = sorted({n_ for b in walk_local(t.node) if isinstance(b, (ast.BinOp, ast.UnaryOp)) for n_ in set(U.names_in(b)) & params} - wrapped)
+        if raw or name in ('range', 'unipolar', 'bipolar'):
+            ctx.ob('C03.sync', f'{t.fq}:list-parameters', not raw,
+                   f'UGen.{name} computes on its parameter(s) {raw} with Python operators: a list there (nested list argument of '
+                   f'ChannelList.{name}, or a list given to the unit itself) raises TypeError instead of expanding', t.node, t.module)
     md = cl.methods['madd']
     ctx.ob('C03.sync', f'{cl.module.name}:ChannelList.madd:zip', 'MulAdd.new(*i) for i in utl.flop([self, mul, add])' in full(md.node),
            'madd builds one MulAdd per row of flop([channels, mul, add])', md.node, cl.module)
@@ -276,6 +297,14 @@ def rule_core(ctx):
 
 
 def run(ctx):
+    # an expanded arithmetic unit re-derives its rate from its own inputs (shared clause with C01.rate): otherwise channel i of an
+    # expanded MulAdd is not what the single call with element i returns
+    ma = ctx.repo.try_func('sc3.synth.ugen:MulAdd._init_ugen')
+    mc = ctx.repo.cls('sc3.synth.ugen:MulAdd')
+    ctx.rule('C03.core', 'generic expansion core; units built by expansion derive their rate per unit')
+    ctx.ob('C03.core', f'{mc.fq}:per-unit-rate', ma is not None and 'self._rate = gpp.ugen_param(self.inputs)._as_ugen_rate()' in full(ma.node),
+           'MulAdd.new computes one rate over the unexpanded lists; each expanded unit must recompute it from its own inputs in _init_ugen',
+           (ma.node if ma is not None else mc.node), mc.module)
     rule_sync(ctx)
     rule_out(ctx)
     rule_direct(ctx)
@@ -283,6 +312,10 @@ def run(ctx):
 
 
 MUTANTS = [
+    dict(rule='C03.sync', name='(fix reverted) UGen.range computes on list bounds with Python operators', file='sc3/synth/ugen.py',
+         old="        lo, hi = (ChannelList(x) if isinstance(x, list) else x for x in (lo, hi))\n", new=""),
+    dict(rule='C03.core', name='MulAdd._init_ugen override removed (seed C03-d)', file='sc3/synth/ugen.py',
+         old="    def _init_ugen(self, input, mul, add):  # override\n        self._inputs = (input, mul, add)\n        self._rate = gpp.ugen_param(self.inputs)._as_ugen_rate()\n        return self  # Must return self.\n\n", new=""),
     dict(rule='C03.sync', name='(fix reverted) madd hands the whole mul/add lists to every channel', file='sc3/synth/ugen.py',
          old="        return type(self)(\n            MulAdd.new(*i) for i in utl.flop([self, mul, add]))", new="        return type(self)(MulAdd.new(i, mul, add) for i in self)"),
     dict(rule='C03.sync', name='(fix reverted) ChannelList += extends the list', file='sc3/synth/ugen.py',
